@@ -293,6 +293,19 @@ class Provenance(Monitor):
             if d0 != 0:
                 V('partial-object-not-at-depth-0', 'the partial object asked about is %s in the result of %s' % (
                     'missing from the depths' if d0 is None else 'at depth %r' % d0, point))
+        # discovery on a plain function: the function asked about is the outermost callable of what comes back (unless the
+        # very object stored in its __signature__ was handed back)
+        if point == 'forged_signature' and isinstance(subject, types.FunctionType):
+            stored = getattr(subject, '__dict__', {}).get('__signature__')
+            wrapped = getattr(subject, '__dict__', {}).get('__wrapped__')
+            # (a stored signature that update_wrapper copied over from the wrapped function describes THAT function:
+            # for a wrapper with star parameters of its own it is not "handed back", it is mistaken for the wrapper's)
+            copied = stored is not None and wrapped is not None and \
+                getattr(wrapped, '__dict__', {}).get('__signature__') is stored and bool(subject.__code__.co_flags & 0x0c)
+            if value is not stored or copied:
+                ctx.count('C08.function_outermost_checked')
+                if not any(c is subject and d == 0 for c, d in depths.items()):
+                    V('retrieved-function-not-at-depth-0', 'the function asked about is not at depth 0 of the signature discovered for it')
         if nontrivial:
             ctx.nontrivial((point, bparams(value), tuple(sorted(
                 (k, len(v)) for k, v in src.items() if k != DEPTHS)), tuple(sorted(depths.values()))))
@@ -491,7 +504,8 @@ class Provenance(Monitor):
         # a parameter of the function that is still there keeps whom it was credited to (the partial object is
         # credited with what it adds, nothing else)
         for name, q in value.parameters.items():
-            if name in sig.parameters and name in sig.sources and name not in (named or ()) and \
+            if name in sig.parameters and name in sig.sources and \
+                    (name not in (named or ()) or q.kind == sig.parameters[name].kind) and \
                     [id(c) for c in value.sources.get(name, ())] != [id(c) for c in sig.sources.get(name, ())]:
                 ctx.violation('C08', 'Provenance', 'partial-surviving-parameter-recredited',
                               'parameter %r survives the partial binding but is credited to other callables than before' % name, w, rp)
